@@ -3,15 +3,18 @@
 // ASSUME: values follow SC interleavings; ghost vector clocks honour the memory orders in the IR; compare_exchange never fails spuriously
 // ASSUME: GALOIS_DIE/GALOIS_ASSERT keep their fatal exit but drop the formatted message
 // ASSUME: the conflict path is the default GALOIS_USE_LONGJMP_ABORT one: signalConflict() longjmps to the setjmp in the modelled worker (modelled as a local goto inside the inlined thread body)
-// OB: ob_own_T2 tier=quick unwind=40 timeout=1500 solver=cadical bounds="T=2 contexts, 2 lockables, each context performs 2 acquire() calls with symbolic target and flag in {READ, WRITE, UNPROTECTED, PREVIOUS} (re-acquisition allowed), then commit; a conflict cancels; 30 steps" desc="never two owners; ALREADY_OWNER only for the true owner; commit/cancel frees everything; hand-over is happens-before; no deadlock"
+// OB: ob_own_T2 tier=thorough unwind=40 timeout=1500 solver=cadical bounds="T=2 contexts, 2 lockables, each context performs 2 acquire() calls with symbolic target and flag in {READ, WRITE, UNPROTECTED, PREVIOUS} (re-acquisition allowed), then commit; a conflict cancels; 30 steps" desc="never two owners; ALREADY_OWNER only for the true owner; commit/cancel frees everything; hand-over is happens-before; no deadlock"
 // OB: ob_own_T3 tier=thorough unwind=60 timeout=3600 solver=cadical bounds="T=3 contexts, 2 lockables, 2 acquires each, 45 steps" desc="same with three contexts"
+// OB: ob_seq3 tier=quick unwind=12 timeout=300 params=6,6,6 param_limit=72 bounds="two contexts, two lockables, 72 of the 216 sequences of 3 operations from {A.acquire, B.acquire, A.commit, B.commit, A.abort, B.abort} (VERIF_SEED; all 216 in the thorough tier); acquire target and flag symbolic; operations are atomic (interleaving at operation granularity)" desc="owner words, lock bits, neighbourhood lists equal an ownership model after every operation; a conflict leaves everything unchanged; commit/abort release exactly the caller's lockables"
+// OB: ob_seq3_all tier=thorough unwind=12 timeout=300 params=6,6,6 bounds="all 216 sequences of 3 operations" desc="same, complete"
+// OB: ob_seq4 tier=thorough unwind=12 timeout=300 params=6,6,6,6 param_limit=400 bounds="400 of the 1296 sequences of 4 operations" desc="same, deeper"
 // OB: ob_flags tier=quick unwind=10 timeout=300 bounds="one context, symbolic flag incl. optional high bits" desc="UNPROTECTED/PREVIOUS never touch the owner word; READ and WRITE both take ownership"
 #include "vf.h"
 #include <csetjmp>
 #include "vf_nodie.h"
 #include "galois/runtime/Context.h"
-#include "../../repo/libgalois/src/Context.cpp"
-#include "../../repo/libgalois/src/PtrLock.cpp"
+#include "../src/Context.cpp"
+#include "../src/PtrLock.cpp"
 
 using namespace galois::runtime;
 extern "C" void vf_sched_own(unsigned n, unsigned steps);
@@ -119,3 +122,82 @@ OB(flags) {
   ctx.commitIteration();
   VF_CHECK(x.owner.getValue() == nullptr && !x.owner.is_locked() && x.next == nullptr);
 }
+
+// ---- operation-granularity sequences (sequential): the conflict longjmp is the return-propagation model
+namespace {
+int seq_acquire(SimpleRuntimeContext* c, Lockable* l, galois::MethodFlag f) {
+  setThreadContext(c);
+  if (_setjmp(execFrame) == 0) {
+    galois::runtime::acquire(l, f);
+    return 0;
+  }
+  return 1; // CONFLICT
+}
+template <unsigned NOPS>
+void run_seq() {
+  SimpleRuntimeContext A, B;
+  SimpleRuntimeContext* ctx[2] = {&A, &B};
+  Lockable L[2];
+  int owner[2] = {-1, -1}; // model: index of the owning context
+  for (unsigned i = 0; i < NOPS; ++i) {
+    unsigned op = vf_param(i);
+    unsigned c  = op & 1;
+    switch (op >> 1) {
+    case 0: { // acquire
+      unsigned l = vf_nondet_u8();
+      vf_assume(l < 2);
+      unsigned f = vf_nondet_u8();
+      vf_assume(f < 4);
+      galois::MethodFlag fl = f == 0 ? galois::MethodFlag::UNPROTECTED : f == 1 ? galois::MethodFlag::READ : f == 2 ? galois::MethodFlag::WRITE : galois::MethodFlag::PREVIOUS;
+      int r = seq_acquire(ctx[c], &L[l], fl);
+      if (!shouldLock(fl)) {
+        VF_CHECKM(r == 0, "UNPROTECTED/PREVIOUS never conflict");
+      } else if (owner[l] == -1 || owner[l] == (int)c) {
+        VF_CHECKM(r == 0, "acquire of a free or already owned lockable succeeds");
+        owner[l] = (int)c;
+      } else {
+        VF_CHECKM(r == 1, "acquire of a lockable owned by another iteration signals a conflict");
+        // the executor aborts the iteration that lost the conflict
+        ctx[c]->cancelIteration();
+        for (unsigned k = 0; k < 2; ++k)
+          if (owner[k] == (int)c) owner[k] = -1;
+      }
+      break;
+    }
+    case 1: // commit
+      setThreadContext(ctx[c]);
+      ctx[c]->commitIteration();
+      for (unsigned k = 0; k < 2; ++k)
+        if (owner[k] == (int)c) owner[k] = -1;
+      break;
+    case 2: // voluntary abort
+      setThreadContext(ctx[c]);
+      ctx[c]->cancelIteration();
+      for (unsigned k = 0; k < 2; ++k)
+        if (owner[k] == (int)c) owner[k] = -1;
+      break;
+    }
+    // the real state equals the model
+    for (unsigned k = 0; k < 2; ++k) {
+      LockManagerBase* o = L[k].owner.getValue();
+      VF_CHECKM(o == (owner[k] < 0 ? nullptr : (LockManagerBase*)ctx[owner[k]]), "owner word equals the ownership model");
+      VF_CHECKM(L[k].owner.is_locked() == (owner[k] >= 0), "lock bit set exactly while owned");
+      if (owner[k] < 0) VF_CHECKM(L[k].next == nullptr, "a free lockable is not linked into any neighbourhood list");
+    }
+    for (unsigned x = 0; x < 2; ++x) { // neighbourhood list of each context = exactly its lockables, each once
+      unsigned seen[2] = {0, 0}, n = 0;
+      for (Lockable* p = ctx[x]->locks; p && n < 3; p = p->next, ++n)
+        for (unsigned k = 0; k < 2; ++k)
+          if (p == &L[k]) ++seen[k];
+      VF_CHECKM(n <= 2, "neighbourhood list is acyclic");
+      for (unsigned k = 0; k < 2; ++k) VF_CHECKM(seen[k] == (owner[k] == (int)x ? 1u : 0u), "neighbourhood list holds exactly the lockables the context owns");
+    }
+  }
+  A.commitIteration();
+  B.commitIteration();
+  for (unsigned k = 0; k < 2; ++k) VF_CHECKM(L[k].owner.getValue() == nullptr && !L[k].owner.is_locked(), "nothing is left owned");
+}
+} // namespace
+OB(seq3) { run_seq<3>(); }
+OB(seq3_all) { run_seq<3>(); }
+OB(seq4) { run_seq<4>(); }
